@@ -64,7 +64,7 @@ Proof. reflexivity. Qed.
 
 (* a literal pattern matches exactly the equal value *)
 Theorem bind_literal fuel rho lit v :
-  bind_pat (S (S fuel)) rho (PExpr (ELit lit)) (D v) = if veqb lit v then Ok [] else Err.
+  bind_pat (S (S fuel)) rho (PExpr (ELit lit)) (D v) = if veqb (norm lit) v then Ok [] else Err.
 Proof. reflexivity. Qed.
 
 (* ---------- let / cond ---------- *)
